@@ -166,6 +166,8 @@ def gen_groups(ctx):
         # compilation dominates the quick tier: pmap configurations and the lone-1x1 tree get ONE
         # of pcs=1,2 per (thr, eps, kernel), alternating; the thorough tier runs the full product
         continue
+      if quick and tree == "unit" and mode != "replicated" and (k // 4) % 2 == 1:
+        continue   # quick tier: half of the lone-1x1 configurations in pmap / sharded mode
       cfg = dict(mode=mode, thr=thr, eps=eps, eigh=eigh, pcs=pcs, tree=tree,
                  beta2=rng.choice([1.0, 0.999]), graft=rng.choice(["SGD", "RMSPROP_NORMALIZED"]))
       hs = structured_histories(rng, names)
